@@ -47,7 +47,10 @@ func genPlan(t *rapid.T) Plan {
 		if racy {
 			s.Quiesce = rapid.IntRange(0, 2).Draw(t, "q") == 0
 		}
-		switch rapid.IntRange(0, 11).Draw(t, "class") {
+		switch rapid.IntRange(0, 12).Draw(t, "class") {
+		case 12:
+			s.Op = "tryburst" // every sender actor issues one TrySend at the same moment
+			s.Quiesce = true
 		case 0, 1, 2, 3:
 			s.Op, s.Actor = "send", rapid.IntRange(0, p.Senders-1).Draw(t, "actor")
 		case 4:
@@ -309,6 +312,16 @@ func script(p Plan, out *vk.Outcome) error {
 			return fmt.Errorf("bad actor")
 		}
 		switch s.Op {
+		case "tryburst":
+			if senderCloseDispatched {
+				continue
+			}
+			for a := 0; a < p.Senders; a++ {
+				dispatch(i, Step{Actor: a, Op: "trysend"})
+			}
+			if p.Senders >= 2 {
+				overlappingSenders = true
+			}
 		case "send", "trysend":
 			if senderCloseDispatched || s.Actor >= p.Senders {
 				continue // never start a Send after the sender's Close (misuse)
